@@ -54,7 +54,9 @@ func ProfileFor(prop string) Profile {
 		p := tilt("bridge-heavy", map[string]int{"bridge": 8, "bridge_receive": 8, "bridge_receive_bound": 4, "mint_replay": 5, "mint": 4, "create_batch": 3, "bridge_chain": 5, "anchor": 0, "attest": 0, "define_resolver": 0, "register_resolver": 0, "resolver_combo": 0})
 		return p
 	case "C14", "C17":
-		p := tilt("creation-heavy", map[string]int{"create_class": 6, "create_project": 8, "create_batch": 5, "bridge_receive": 3, "add_credit_type": 5, "basket_create": 3})
+		p := tilt("creation-heavy", map[string]int{"create_class": 6, "create_project": 8, "create_batch": 5, "bridge_receive": 3, "add_credit_type": 5, "basket_create": 3,
+			// messages that delete or re-key parent rows while children exist (references must keep resolving)
+			"allowed_denom": 4, "bridge_chain": 2, "update_class_issuers": 2, "class_creator": 2})
 		p.MaxClasses, p.MaxProjects, p.MaxBatches, p.MaxBaskets = 130, 260, 320, 30
 		return p
 	case "C16":
